@@ -4,7 +4,7 @@
 Require Import ZArith List String Bool Reals Lra.
 Import ListNotations.
 From GLMV Require Import Expr SemR Cat Comm Chk SpecLinAlg SpecProj SpecGeom.
-From W Require Gen_C09 Gen_C09_LH.
+From W Require Gen_C09 Gen_C09_LH Gen_C09_ZO Gen_C09_LHZO.
 Local Open Scope string_scope.
 Local Open Scope Z_scope.
 Definition cat := Gen_C09.catalogue.
@@ -42,5 +42,8 @@ Proof. lookat_tac. match goal with |- ?lhs = _ => transitivity ((s * s) * / s)%R
 (* dispatch on GLM_FORCE_LEFT_HANDED *)
 Definition same (c1 c2 : list (string * tree)) (a b : string) : bool := match lookup a c1, lookup b c2 with Some x, Some y => tree_eqb x y && negb (has_abort x) | _, _ => false end.
 Lemma lookAt_dispatch : same cat cat "lookAt" "lookAtRH" && same Gen_C09_LH.catalogue Gen_C09_LH.catalogue "lookAt" "lookAtLH"
-   && same cat Gen_C09_LH.catalogue "lookAtRH" "lookAtRH" && same cat Gen_C09_LH.catalogue "lookAtLH" "lookAtLH" = true.
+   && same cat Gen_C09_LH.catalogue "lookAtRH" "lookAtRH" && same cat Gen_C09_LH.catalogue "lookAtLH" "lookAtLH"
+   (* the depth-range switch does not change the handedness: all four clip-control configurations *)
+   && same Gen_C09_ZO.catalogue cat "lookAt" "lookAtRH" && same Gen_C09_LHZO.catalogue cat "lookAt" "lookAtLH"
+   && same Gen_C09_ZO.catalogue cat "lookAtLH" "lookAtLH" && same Gen_C09_LHZO.catalogue cat "lookAtRH" "lookAtRH" = true.
 Proof. vm_compute. reflexivity. Qed.
